@@ -291,7 +291,7 @@ fn render<'a, T: DiffableStr + ?Sized + 'a>(d: &'a TextDiff<'a, 'a, 'a, T>, radi
     }
     let mut writer = vec![];
     ud.to_writer(&mut writer).unwrap();
-    let max = [1usize, 3, 7, 64][(radius + header.map_or(0, |h| h.0.len())) % 4];
+    let max = [1usize, 3, 7, 64][(radius % 4 + header.map_or(0, |h| h.0.len())) % 4];
     let mut tw = Trickle { out: vec![], max };
     ud.to_writer(&mut tw).unwrap();
     let trickle = tw.out;
@@ -330,7 +330,7 @@ fn render<'a, T: DiffableStr + ?Sized + 'a>(d: &'a TextDiff<'a, 'a, 'a, T>, radi
     // the builder as a history of setter calls (the last call of each setter decides), and one
     // builder rendered twice
     let mut ud3 = d.unified_diff();
-    ud3.context_radius(radius + 2).header("x", "y\tz").missing_newline_hint(false);
+    ud3.context_radius(radius.saturating_add(2)).header("x", "y\tz").missing_newline_hint(false);
     let _ = ud3.to_string();
     ud3.context_radius(radius).missing_newline_hint(true);
     match header {
@@ -574,7 +574,8 @@ pub fn check_case(c0: &Case, obs: &mut Obs) -> Verdict {
 }
 
 fn strat(tier: Tier) -> BoxedStrategy<Case> {
-    let radius = prop_oneof![3 => Just(0usize), 2 => Just(1usize), 2 => Just(2usize), 3 => Just(3usize), 1 => Just(4usize), 1 => Just(7usize), 1 => Just(50usize)];
+    // (1 in ~40: "all the context there is", radii at the top of the integer range)
+    let radius = prop_oneof![9 => Just(0usize), 6 => Just(1usize), 6 => Just(2usize), 9 => Just(3usize), 3 => Just(4usize), 3 => Just(7usize), 3 => Just(50usize), 1 => prop_oneof![Just(usize::MAX), Just(1usize << 63), Just((1usize << 63) + 3), Just(usize::MAX / 2)]];
     let texts = prop_oneof![
         6 => crate::gen::line_text_pair(tier.pick(40, 300), false),
         1 => crate::gen::line_text_pair_sized(90, tier.pick(140, 300), false),
@@ -634,7 +635,7 @@ impl Prop for C05 {
     type Case = Case;
     const ID: &'static str = "C05";
     fn rule() -> String {
-        "1 random case in 10 renders the diff of two VIEWS INTO ONE BUFFER (truncated copy, tail view, adjacent views); cases = (old, new line texts, algorithm, str | [u8], context radius in {0,1,2,3,4,7,50}, header in {none, (a,b), names with space/tab/non-ASCII}); texts are line lists with LF/CRLF/CR terminators, optional missing final newline, many repeated lines, diff-looking lines ('-y', '+z', '@@ -1 +1 @@', '\\ No newline at end of file', '--- a'), for [u8] invalid UTF-8; new = independent or mutate(old) at line level; plus texts of 101-300/600 almost-all-distinct lines, texts containing a line of more than 8 KiB, and two fixed 70 000-line texts; enumeration of all pairs of texts of <= 4 (thorough 5) lines over {a LF, b LF, a CRLF, a (unterminated)} x radius {0,1}. Oracle: independent reader (file header, hunk headers, body lines, marker) and strict applier: counts == body counts, starts == true positions, increasing and non-overlapping, every context/deletion line equals the old line at that position, result == new byte for byte, marker exactly on unterminated lines, equal inputs => empty output, each hunk has a change, <= radius context at the edges, deletions before insertions; Display == writer (UTF-8) or == lossy(writer); to_writer into a writer that accepts only 1/3/7/64 bytes per call == to_writer into a Vec; per-hunk rendering and hunk.header() agree; missing_newline_hint(false) == output without marker lines; udiff::unified_diff == builder. Header start/count failures are re-executed with the swap repair on: if they vanish they are known finding D7. Non-trivial = at least one hunk; distinct = distinct serialized case.".into()
+        "1 random case in 10 renders the diff of two VIEWS INTO ONE BUFFER (truncated copy, tail view, adjacent views); cases = (old, new line texts, algorithm, str | [u8], context radius in {0,1,2,3,4,7,50} and (1 case in ~40) radii at the top of the integer range, header in {none, (a,b), names with space/tab/non-ASCII}); texts are line lists with LF/CRLF/CR terminators, optional missing final newline, many repeated lines, diff-looking lines ('-y', '+z', '@@ -1 +1 @@', '\\ No newline at end of file', '--- a'), for [u8] invalid UTF-8; new = independent or mutate(old) at line level; plus texts of 101-300/600 almost-all-distinct lines, texts containing a line of more than 8 KiB, and two fixed 70 000-line texts; enumeration of all pairs of texts of <= 4 (thorough 5) lines over {a LF, b LF, a CRLF, a (unterminated)} x radius {0,1}. Oracle: independent reader (file header, hunk headers, body lines, marker) and strict applier: counts == body counts, starts == true positions, increasing and non-overlapping, every context/deletion line equals the old line at that position, result == new byte for byte, marker exactly on unterminated lines, equal inputs => empty output, each hunk has a change, <= radius context at the edges, deletions before insertions; Display == writer (UTF-8) or == lossy(writer); to_writer into a writer that accepts only 1/3/7/64 bytes per call == to_writer into a Vec; per-hunk rendering and hunk.header() agree; missing_newline_hint(false) == output without marker lines; udiff::unified_diff == builder. Header start/count failures are re-executed with the swap repair on: if they vanish they are known finding D7. Non-trivial = at least one hunk; distinct = distinct serialized case.".into()
     }
     fn assumptions() -> Vec<String> {
         vec![
